@@ -171,6 +171,14 @@ fn run_item(it: &Item) -> Res {
                         r.violations.push((format!("{fam}|cai-outside-file"), format!("{}: Cai {}+{} exceeds the file length {}", it.variant, c.0, c.1, it.bytes.len())));
                         bad = true;
                     }
+                    // "never overlaps a non-manifest region": judged against the independent parser's elements too
+                    if let Some(p) = &parsed {
+                        let in_container = |e: &fmt::Elem| p.containers.iter().any(|ct| ct.ranges.iter().any(|rg| fmt::within((e.start, e.len), *rg)));
+                        if let Some(e) = p.elems.iter().find(|e| !e.is_c2pa && e.len > 0 && !in_container(e) && fmt::within((e.start, e.len), *c)) {
+                            r.violations.push((format!("{fam}|cai-covers-non-manifest-element"), format!("{}: Cai {}+{} covers the whole non-manifest element {} at {}+{}", it.variant, c.0, c.1, e.kind, e.start, e.len)));
+                            bad = true;
+                        }
+                    }
                     for (o, l, k) in &locs {
                         if k != "Cai" && fmt::overlaps((*o, *l), *c) {
                             r.violations.push((format!("{fam}|cai-overlaps:{k}"), format!("{}: Cai {}+{} overlaps {k} {o}+{l}", it.variant, c.0, c.1)));
